@@ -164,6 +164,7 @@ pub fn rec_end(ctx: Ctx, r: Rec, c: u8, kind: CallKind, arg: (u32, usize), exp_a
             arg: arg.0,
             arg_addr: arg.1,
             exp_addr,
+            exp_uid: None,
             ret: ret.0,
             ret_addr: ret.1,
             inv: r.inv,
@@ -591,11 +592,18 @@ fn op_cas(ctx: Ctx, c: u8, cur: Cur, form: u8, v: V, g: u8) {
             C::GuardOwn(gd) => PtrT::addr(&**gd),
             C::Raw(a) => *a,
         };
+        let mut exp_uid = match &cu {
+            C::Val(t) => Some(t.peek_uid()),
+            C::GuardRef(_, gd, _) => Some(PtrT::peek_uid(&**gd)),
+            C::GuardOwn(gd) => Some(PtrT::peek_uid(&**gd)),
+            C::Raw(_) => None,
+        };
         // A raw form was requested for a value we hold: degrade to its address.
         if form >= 3 {
             if let C::Val(t) = cu {
                 drop(t);
                 cu = C::Raw(exp_addr);
+                exp_uid = None;
             }
         }
         let r = rec_begin();
@@ -636,11 +644,13 @@ fn op_cas(ctx: Ctx, c: u8, cur: Cur, form: u8, v: V, g: u8) {
                 let uid = ag.uid_touch();
                 let addr = ag.addr();
                 rec_end(ctx, r, c, CallKind::Cas, arg, exp_addr, (uid, addr), true);
+                w(|w| w.hist.last_mut().unwrap().exp_uid = exp_uid);
                 note_seen(ctx, addr);
                 Some(GEntry { g: ag, uid, addr, cont: c })
             }
             None => {
                 rec_end(ctx, r, c, CallKind::Cas, arg, exp_addr, (0, 0), false);
+                w(|w| w.hist.last_mut().unwrap().exp_uid = exp_uid);
                 None
             }
         }
@@ -742,6 +752,7 @@ fn op_rcu(ctx: Ctx, c: u8, spec: RcuSpec, h: u8) {
                     arg: 0,
                     arg_addr: 0,
                     exp_addr: 0,
+                    exp_uid: None,
                     ret: *u,
                     ret_addr: *a,
                     inv: r0.inv,
